@@ -127,6 +127,11 @@ def execute(case):
             v.append(("%s:%s:emission-count" % (ID, name), "%d batches, %d emissions" % (
                 len(bs), len(out))))
             break
+        bad = [o for o in out if not isinstance(o, (pd.Series, pd.DataFrame))]
+        if bad and op["fam"] in ("rolling", "cum"):
+            v.append(("%s:%s:emits-%s-instead-of-frame" % (ID, name, type(bad[0]).__name__),
+                      "split %s rows %s: emitted %r" % (sizes, t["rows"], _short(bad[0]))))
+            break
         if op["fam"] in ("rolling", "cum"):
             got = pd.concat(out) if out else None
             exp = pandas_full(cat, op)
@@ -234,6 +239,6 @@ def execute_large(case):
 
 PARTS = [Part("splits", case_strategy, execute, quick=800, thorough=4000),
          Part("long-streams", None, execute_large, quick=0, thorough=0, shards=1,
-              exhaustive=large_cases),
+              exhaustive=large_cases, cpu_limit=None),
          Part("coverage-guided:splits", None, execute, quick=0, thorough=0, shards=1,
               exhaustive=runner_fuzz_part(ID, "splits"))]
